@@ -73,6 +73,7 @@ CORE = {
 
 _STATE = {"tier": None, "states": None, "stats": None}
 _SCRATCH = None
+_RUNDIR = None
 
 
 def _cfg(tier):
@@ -200,6 +201,7 @@ def _worker_init():
 
 def prepare(tier):
     cfg = _cfg(tier)
+    _make_rundir()
     ctx = mp.get_context("fork")
     with ctx.Pool(_jobs(), initializer=_worker_init) as pool:
         full = _bfs(pool, cfg["seeds"], cfg["depth_full"], False)
@@ -249,13 +251,26 @@ def cases(tier):
 # ---------------------------------------------------------------------------
 # judging (runner workers)
 # ---------------------------------------------------------------------------
+def _make_rundir():
+    """Scratch directory of this run (under /dev/shm), removed when the
+    process that created it exits.  Pool workers are forked and leave through
+    os._exit, so they only create sub-directories of it."""
+    global _RUNDIR
+    if _RUNDIR is None:
+        import atexit
+        from mc import runner
+        _RUNDIR = runner.scratch_dir("c10")
+        atexit.register(shutil.rmtree, _RUNDIR, True)
+    return _RUNDIR
+
+
 def init_worker(_tier):
     global _SCRATCH
-    from mc import runner
     core.reset_singletons()
-    _SCRATCH = runner.scratch_dir("c10")
-    import atexit
-    atexit.register(shutil.rmtree, _SCRATCH, True)
+    owner = _RUNDIR is None
+    base = _make_rundir()
+    _SCRATCH = base if owner else os.path.join(base, f"w{os.getpid()}")
+    os.makedirs(_SCRATCH, exist_ok=True)
 
 
 def _snippet(text):
@@ -384,10 +399,9 @@ def finish(tier, _totals):
 
 def replay(case):
     """Re-executes one history from the seed text, without the explorer."""
-    global _SCRATCH
     if _SCRATCH is None:
         init_worker("quick")
-    seed, fam, history = case["seed"], case["fam"], case["history"]
+    seed, history = case["seed"], case["history"]
     psyir, routine, outcomes = core.build(seed, history)
     out = {"seed": seed, "history": core.hist_str(history),
            "apply_outcomes": outcomes, "viol": []}
